@@ -224,6 +224,30 @@ def build(reg):
         raises={'OSError': True, 'FileNotFoundError': True, 'FileExistsError': True}, result=None, max_paths=400,
         note='opens the file and takes the flock in the requested mode; no descriptor (and no lock) leaks when locking fails'))
     units[-1].dyn_attr_store = True
-    units += [
-              Watch(F, 'checkUnused', 'usage check'), Watch(F, 'sameWorkspace', 'usage check')]
+    # ---- usage check (strict typed mode): a package is unused exactly if NO recorded user workspace still points to it
+    META = OpaqueT('PkgMeta'); LSTR = ListT(STR)
+    USERS = z3.Function('META_users', sort_of(META), sort_of(LSTR)); JOIN = z3.Function('path_join', z3.StringSort(), z3.StringSort(), z3.StringSort())
+    SAME = z3.Function('sameWorkspace', z3.StringSort(), z3.StringSort(), z3.BoolSort())
+    def meta_get(eng, st, args, kw, node):
+        if not (z3.is_string_value(args[1].z) and args[1].z.as_string() == 'users'): raise Unsupported('pkgMeta.get of another key at %s' % eng.loc(node))
+        L = USERS(args[0].z); st.assume(list_len(LSTR, L) >= 0)
+        return [(st, eng.alloc(st, LSTR, L))]
+    reg.models['PkgMeta.get'] = meta_get
+    def m_same(eng, st, args, kw, node):
+        if reg.dyn: return None
+        return [eng.raise_(st.fork(), 'bob.errors.BuildError', 'workspace cannot be inspected at %s' % eng.loc(node)), (st, mk_bool(SAME(args[0].z, args[1].z)))]
+    reg.models['bob.share.sameWorkspace'] = m_same
+    def m_join(eng, st, args, kw, node):
+        if reg.dyn or len(args) != 2 or args[0].t != STR or args[1].t != STR: return None
+        return [(st, V(STR, JOIN(args[0].z, args[1].z)))]
+    reg.models['os.path.join'] = m_join
+    reg.pure_names |= {'bob.share.sameWorkspace', 'os.path.join', 'PkgMeta.get'}
+    def unused_post(o, n, r):
+        j = z3.Int('uj'); U = USERS(o.pkgMeta.z); ws = JOIN(o.pkgPath.z, z3.StringVal('workspace'))
+        return r.z == z3.ForAll([j], z3.Implies(z3.And(0 <= j, j < list_len(LSTR, U)), z3.Not(SAME(list_get(LSTR, U, j), ws))), patterns=[list_get(LSTR, U, j)])
+    cu = Unit(F, 'checkUnused', {'pkgMeta': META, 'pkgPath': STR}, 'C15', result=BOOL, raises={'bob.errors.BuildError': True},
+        ensures=[('unused-exactly-if-no-recorded-user-workspace-points-to-the-package', unused_post)],
+        note='strict typed mode; sameWorkspace(link, path) is an uninterpreted predicate that may raise BuildError (file system inspection: bounded native search)')
+    cu.dyn = False; units.append(cu)
+    units += [Watch(F, 'sameWorkspace', 'usage check (link / place-holder file inspection)')]
     return units
